@@ -8,6 +8,7 @@ PROP = {
     ],
     "targets": [
         {"name": "printf_fp", "quick": 1500000, "thorough": 25000000, "maxlen": 64},
+        {"name": "printf_fp_multi", "quick": 400000, "thorough": 5000000, "maxlen": 96},
         {"name": "printf_fp_reentrant", "quick": 300000, "thorough": 4000000, "maxlen": 64},
         {"name": "printf_fp_wide", "quick": 300000, "thorough": 4000000, "maxlen": 64},
     ],
